@@ -31,6 +31,8 @@ def replay(d):
 def check(run):
     run.level = "other"
     PC.deductive(run)
+    # the per-reaction selection among the search conditions must not carry state from one reaction to the next
+    run.deductive(["contracts.mcs_select"])
     from checks import crosscheck
     crosscheck.bounded_part(run, ["contracts.balancing"], ["merge_stats"])
     run.assume("worker scheduling: joblib process pools are modelled as order-preserving maps; real interleavings are only sampled (n_jobs 1, 2, 4)")
@@ -38,6 +40,9 @@ def check(run):
     n = 14 if run.tier == "quick" else 120
     pool = [r for r in P.CRAFTED if r not in ("[U]>>[Th]",)][:30] + P.validation_reactions(30 if run.tier == "quick" else 300, seed=run.seed)
     rs = rnd.sample(pool, min(n, len(pool)))
+    # reactions whose sides share no substructure (every search condition comes back empty): their row must not depend on which
+    # reaction was selected before them in the batch
+    rs += [r for r in ("CCOC(C)=O>>[Na+].[Cl-]", "C1CC1>>N#N", "CC.O>>N") if r not in rs]
     # reference: every reaction alone
     alone = {}
     st_alone = {}
